@@ -2,7 +2,7 @@
 //! the simulator owns that seam with `SimRng`, which can be a fair stream or a
 //! faulty one (stuck, periodic, low-entropy, adversarially scripted).
 
-use crate::rng::Rng as Prng;
+use simcore::rng::Rng as Prng;
 use rand::RngCore;
 use serde::{Deserialize, Serialize};
 
